@@ -40,6 +40,7 @@ RULE = ('A case is one (code, word) or one (code, byte string, offset) or one (e
         'they are distinct across shards by construction.  Non-trivial: every word except the all-zero word; a '
         'variable-length case is non-trivial when its value part is non-empty or it is truncated.')
 ASSUMPTIONS = [
+    'ReadBIT.float_to_bytes (the IBM single encoder) is held to "encoders invert decoders" inside the range of normalised IBM singles only, 16^-64 <= |x| < 16^63: below it the encoder clamps the exponent field at 0 without shifting the fraction (word 8002d5e8 -> 802d5e80), which the property does not speak about; the loss bound used is the format\'s own 2^-20 (24 fraction bits, up to three leading zeros), not code 68\'s 2^-22',
     'LIS code 68 is read field-wise: 24 bit two\'s complement fraction (sign bit + 23 bits) and an excess-128 exponent stored one\'s complemented when the sign is set; so S=1, F=0 means fraction -1.0',
     'a word is handed to pRepCode/cRepCode fromNN exactly as RepCode\'s own plumbing would hand it over (the integer STRUCT_RC_NN unpacks); RepCode.fromNN of codes 49/50/68/70 additionally receives the unsigned word, as the repository tests do',
     'LIS code 50 words whose exact value M*2^E is not a float64 (16 bit exponent) are not asserted (nothing a float-returning decoder does can be right); they are counted',
@@ -69,7 +70,7 @@ MECHANISMS = ([(_P, n) for n in ('from49', 'from50', 'from56', 'from66', 'from68
                                    'OBNAME_len', 'OBJREF', 'STATUS', 'UNITS', 'code_read')]
               + [(_B, 'bytes_to_float')])
 REQUIRED_MONITORS = ['exact_reference', 'differential_from68', 'differential_to68', 'consumption', 'len_helpers',
-                     'truncated_must_raise', 'encoder_equivalence', 'encoder_bound', 'bit_vs_isingl', 'ref_selfcheck', 'sequential_stream', 'same_bytes_other_code', 'integer_writers',
+                     'truncated_must_raise', 'encoder_equivalence', 'encoder_bound', 'bit_vs_isingl', 'bit_encoder_inverts_decoder', 'ref_selfcheck', 'sequential_stream', 'same_bytes_other_code', 'integer_writers',
                      'sanitizer_harness_words', 'sanitizer_module_calls']
 MIN_NONTRIVIAL = {'quick': 3000000, 'thorough': 400000000}
 TIMEOUT_S = {'quick': 400, 'thorough': 3400}
@@ -733,6 +734,7 @@ def leg_b_wide(S, mods, RPmods, np, R, n_random, codes=None, which=('user', 'p',
             run_fixed(S, code, lis50_band_words(S, n_random, np), ents, 'exponent in [-1100, 1100], affine-scrambled distinct words', None, np, R)
         if code == 'ISINGL' and not S.under:
             leg_bit(S, rnd, RPmods, np, R)
+            leg_bit_encoder(S, rnd, np)
 
 
 def leg_bit(S, words, RPmods, np, R):
@@ -760,6 +762,59 @@ def leg_bit(S, words, RPmods, np, R):
                     if S.want(('BIT', 'longer'), False):
                         rec.violation('bit_vs_isingl', 'trailing-bytes', 'bytes_to_float(%s + trailing bytes) -> %s, without them %s' % (
                             b.hex(), describe(v)[1], describe(got[bs.index(b)])[1]), {'bytes': b.hex()})
+
+
+def leg_bit_encoder(S, words, np):
+    """ReadBIT.float_to_bytes, the IBM single (ISINGL / BIT) encoder, against the decoders: a decoded value encodes to an equivalent
+    word (one that decodes to the same number), and a finite double inside the format's range comes back with the sign it had and
+    less than 2^-20 of its magnitude lost (24 fraction bits of which the top hexadecimal digit may hold three leading zeros)."""
+    import math
+    import random
+    from TotalDepth.BIT import ReadBIT
+    rec = S.rec
+    rng = random.Random(int(words[0]) if len(words) else 0)
+    lo, hi = 16.0 ** -64, 16.0 ** 63
+    n_words = n_doubles = 0
+    for w in words[:4000].tolist():
+        b = w.to_bytes(4, 'big')
+        try:
+            v = ReadBIT.bytes_to_float(b)
+            back = ReadBIT.bytes_to_float(ReadBIT.float_to_bytes(v))
+        except Exception as e:  # noqa
+            if S.want(('BITenc', 'raised'), False):
+                rec.violation('bit_encoder_inverts_decoder', 'raised', 'float_to_bytes(bytes_to_float(%s)) raised %s: %s' % (b.hex(), type(e).__name__, e), {'bytes': b.hex()}, exc=e)
+            continue
+        if v != 0 and not (lo <= abs(v) < hi):
+            continue        # below the smallest normalised number the encoder clamps the exponent: outside "in range"
+        n_words += 1
+        if back != v and S.want(('BITenc', 'word'), False):
+            rec.violation('bit_encoder_inverts_decoder', 'decoded-value', 'word %s decodes to %r, which encodes to %s = %r' % (
+                b.hex(), v, ReadBIT.float_to_bytes(v).hex(), back), {'bytes': b.hex(), 'value': v, 'back': back})
+    for _ in range(6000):
+        k = rng.random()
+        if k < 0.35:
+            # just below / at / above a power of 16 and of 2: where a rounded fraction would carry out of its 24 bits
+            x = rng.choice([-1.0, 1.0]) * 16.0 ** rng.randrange(-60, 60) * rng.choice([1.0, 2.0, 4.0, 8.0]) * (1 - rng.choice([0, 2 ** -53, 2 ** -40, 2 ** -30, 2 ** -25, 2 ** -24, 2 ** -23]))
+        elif k < 0.7:
+            x = rng.choice([-1.0, 1.0]) * math.ldexp(rng.random() + 0.5, rng.randrange(-250, 250))
+        else:
+            x = rng.uniform(-1e6, 1e6)
+        if not (lo <= abs(x) < hi):
+            continue
+        try:
+            b = ReadBIT.float_to_bytes(x)
+            y = ReadBIT.bytes_to_float(b)
+        except Exception as e:  # noqa
+            if S.want(('BITenc', 'raised'), False):
+                rec.violation('bit_encoder_inverts_decoder', 'raised', 'float_to_bytes(%r) raised %s: %s' % (x, type(e).__name__, e), {'value': x}, exc=e)
+            continue
+        n_doubles += 1
+        if (len(b) != 4 or abs(y - x) >= abs(x) * 2.0 ** -20 or (y < 0) != (x < 0)) and S.want(('BITenc', 'double'), False):
+            rec.violation('bit_encoder_inverts_decoder', 'in-range-double', 'float_to_bytes(%r) = %s which decodes to %r (relative loss %.3g, IBM single keeps it below 2^-20)' % (
+                x, b.hex(), y, abs(y - x) / abs(x)), {'value': x, 'bytes': b.hex(), 'back': y})
+    rec.mon('bit_encoder_inverts_decoder', n_words + n_doubles)
+    rec.add('bit_encoder_words', n_words)
+    rec.add('bit_encoder_doubles', n_doubles)
 
 
 def bs_hex(bs):
